@@ -58,12 +58,15 @@ class ChunkedRaw(io.RawIOBase):
 class FaultySink(io.RawIOBase):
     """Raw byte sink that raises OSError(err) once `limit` bytes were accepted."""
 
-    def __init__(self, limit: int | None = None, err: int = errno.EPIPE):
+    def __init__(self, limit: int | None = None, err: int = errno.EPIPE, short: bool = False):
         super().__init__()
         self.buf = bytearray()
         self.limit = limit
         self.err = err
         self.fired = False
+        # short write: the call that crosses the limit accepts the part that fits and reports that count (what
+        # write(2) does on a nearly full disk, a file size limit or a pipe); the error comes with the next call
+        self.short = short
 
     def writable(self):
         return True
@@ -73,6 +76,9 @@ class FaultySink(io.RawIOBase):
         if self.limit is not None and len(self.buf) + len(data) > self.limit:
             room = max(0, self.limit - len(self.buf))
             self.buf += data[:room]
+            if self.short and room and not self.fired:
+                self.fired = True
+                return room
             self.fired = True
             raise OSError(self.err, os.strerror(self.err))
         self.buf += data
@@ -87,7 +93,7 @@ class Result:
 
 
 def run_inprocess(argv: list[str], *, stdin_bytes: bytes | None, chunks: list[int] | None = None,
-                  stdin_closed: bool = False, out_limit: int | None = None, out_err: int = errno.EPIPE) -> Result:
+                  stdin_closed: bool = False, out_limit: int | None = None, out_err: int = errno.EPIPE, out_short: bool = False) -> Result:
     from nix_manipulator.cli.main import main
 
     res = Result()
@@ -96,7 +102,7 @@ def run_inprocess(argv: list[str], *, stdin_bytes: bytes | None, chunks: list[in
     stdin = io.TextIOWrapper(io.BufferedReader(raw_in, buffer_size=8192), encoding="utf-8", errors="strict", newline="\n")
     if stdin_closed:
         stdin.close()
-    sink = FaultySink(out_limit, out_err)
+    sink = FaultySink(out_limit, out_err, out_short)
     stdout = io.TextIOWrapper(sink, encoding="utf-8", errors="strict", write_through=True)
     errsink = FaultySink()
     stderr = io.TextIOWrapper(errsink, encoding="utf-8", errors="backslashreplace", write_through=True)
@@ -367,7 +373,7 @@ def generate(seed: int, tier: str) -> dict:
     elif fr < 0.16:
         fault = {"kind": "stdin_closed"}
     elif fr < 0.26:
-        fault = {"kind": "stdout", "err": rng.choice(["EPIPE", "ENOSPC"]), "at": rng.choice([0, 0, 1, 2, 5, 17, 100])}
+        fault = {"kind": "stdout", "err": rng.choice(["EPIPE", "ENOSPC", "EFBIG"]), "at": rng.choice([0, 0, 1, 2, 5, 17, 100]), "short": rng.random() < 0.4}
     return {"prop": "C16", "engine": "cli", "seed": seed, "tier": tier, "text_kind": kind, "input": text, "cmd": cmd,
             "chunks": chunks, "fault": fault, "flag_first": rng.random() < 0.5}
 
@@ -419,15 +425,19 @@ def execute(case: dict, *, root: str | None = None, subprocess_check: bool = Fal
             stats["fault:" + fkind] = 1
         out_limit = None
         out_err = errno.EPIPE
+        out_short = False
         if fkind == "stdout":
             out_limit = fault["at"]
             out_err = getattr(errno, fault["err"])
+            out_short = bool(fault.get("short"))
+            if out_short:
+                stats["fault:stdout_short_write"] = 1
 
         runs: dict[str, Result] = {}
         # channel 1: stdin
         if fkind not in ("missing_file", "directory"):
             runs["stdin"] = run_inprocess(list(cmd), stdin_bytes=data, chunks=case["chunks"],
-                                          stdin_closed=(fkind == "stdin_closed"), out_limit=out_limit, out_err=out_err)
+                                          stdin_closed=(fkind == "stdin_closed"), out_limit=out_limit, out_err=out_err, out_short=out_short)
             stats["invocations"] += 1
             stats["stdin_reads"] = runs["stdin"].stdin_reads
         # channel 2: -f FILE
@@ -437,7 +447,7 @@ def execute(case: dict, *, root: str | None = None, subprocess_check: bool = Fal
                 fpath = os.path.join(root, "does-not-exist.nix")
             elif fkind == "directory":
                 fpath = root
-            runs["file"] = run_inprocess(_argv(cmd, fpath, case["flag_first"]), stdin_bytes=b"", out_limit=out_limit, out_err=out_err)
+            runs["file"] = run_inprocess(_argv(cmd, fpath, case["flag_first"]), stdin_bytes=b"", out_limit=out_limit, out_err=out_err, out_short=out_short)
             stats["invocations"] += 1
 
         usage = _arg_problem(cmd)
